@@ -1061,6 +1061,9 @@ pub fn sublist3(list: &Value, position_value: &Value, length_value: &Value) -> V
           }
           if position_number.is_negative() {
             if let Some(position) = position_number.abs().to_usize() {
+              if position > items.len() {
+                return value_null!("start position is before the beginning of the list");
+              }
               let first = items.len() - position;
               let last = first + length;
               if first < items.len() && last <= items.len() {
